@@ -73,7 +73,7 @@ def _std_summary(callee, t, args_iv, get_cell):
 
 
 class Intervals:
-    def __init__(self, body, summaries=None, depth=0, arg_intervals=None, sub_analyses=None, variant_sets=False):
+    def __init__(self, body, summaries=None, depth=0, arg_intervals=None, sub_analyses=None, variant_sets=False, through_refs=False):
         """variant_sets: track for every enum-valued cell the *set* of variants it may hold instead of
         'one known variant or nothing':
           * sets are joined by union (an `Ok(None)` / `Err(e)` / `Ok(Some(p))` merge in any arrival
@@ -85,6 +85,10 @@ class Intervals:
         Off by default (the behaviour every existing caller was confirmed with); inherited by the
         analyses of callees."""
         self.variant_sets = variant_sets
+        # through_refs: a place `(*r).f` where r is (a copy of) the one shared borrow `&x.g` of a local x
+        # that is never borrowed mutably denotes `x.g.f` (an inlined `&self` helper reading the struct
+        # its caller has just built).  Off by default; inherited by the analyses of callees.
+        self.through_refs = through_refs
         self.b = body
         self.facts = body.facts
         self.depth = depth
@@ -98,6 +102,15 @@ class Intervals:
         self._solve()
 
     # ---- helpers -----------------------------------------------------------------------------
+    def _cop(self, p):
+        """cell_of_place, looking through a shared reference to a local when through_refs is on."""
+        if self.through_refs and p["proj"] and p["proj"][0]["k"] == "deref":
+            from .mir import alias_of
+            root, mode, proj = alias_of(self.b, p["local"])
+            if mode == "ref" and root not in self.escaped and not any(e["k"] == "deref" for e in proj):
+                return cell_of_place({"local": root, "proj": list(proj) + list(p["proj"][1:])})
+        return cell_of_place(p)
+
     def _find_escapes(self):
         b = self.b
         for loc, st in b.iter_stmts():
@@ -143,12 +156,12 @@ class Intervals:
                 return (v, v)
             return self._top(o.get("ty"))
         p = o["place"]
-        cell = cell_of_place(p)
+        cell = self._cop(p)
         return self.get(st, cell, p["ty"])
 
     def operand_cell(self, o):
         if o["k"] in ("copy", "move"):
-            return cell_of_place(o["place"])
+            return self._cop(o["place"])
         return None
 
     # ---- transfer ----------------------------------------------------------------------------
@@ -188,15 +201,15 @@ class Intervals:
 
     def assign(self, st, place, rv, loc):
         b = self.b
-        dcell = cell_of_place(place)
+        dcell = self._cop(place)
         k = rv["k"]
         if dcell is None:
             # write through deref / index: untracked memory; nothing tracked changes
             return
         if k == "use":
             o = rv["op"]
-            if o["k"] in ("copy", "move") and cell_of_place(o["place"]) is not None:
-                src = cell_of_place(o["place"])
+            if o["k"] in ("copy", "move") and self._cop(o["place"]) is not None:
+                src = self._cop(o["place"])
                 if src[0] in self.escaped:
                     self._kill(st, dcell[0], dcell[1])
                     return
@@ -261,8 +274,8 @@ class Intervals:
             for i, fo in enumerate(rv["fields"]):
                 fty = fo.get("ty") or fo.get("place", {}).get("ty")
                 sub = (dcell[0], dcell[1] + vtag + (i,))
-                if fo["k"] in ("copy", "move") and cell_of_place(fo["place"]) is not None:
-                    src = cell_of_place(fo["place"])
+                if fo["k"] in ("copy", "move") and self._cop(fo["place"]) is not None:
+                    src = self._cop(fo["place"])
                     if src[0] not in self.escaped:
                         self._copy_into(st, src, sub)
                         if self.variant_sets:
@@ -272,7 +285,7 @@ class Intervals:
             return
         if k == "discr":
             if self.variant_sets:
-                src = cell_of_place(rv["place"])
+                src = self._cop(rv["place"])
                 ty = rv["place"].get("ty")
                 if src is not None and src[0] not in self.escaped and self._variant_names(ty):
                     # remembered like a comparison: killed with either local, consulted by the switch
@@ -339,7 +352,7 @@ class Intervals:
         if o["k"] == "const":
             iv = self.operand_iv({"iv": {}, "eq": {}, "pred": {}, "ovf": {}, "variant": {}}, o)
             return ("c", iv[0]) if iv[0] == iv[1] else ("?",)
-        c = cell_of_place(o["place"])
+        c = self._cop(o["place"])
         if c is None:
             return ("?",)
         return ("cell", c, o["place"]["ty"])
@@ -397,7 +410,7 @@ class Intervals:
     def call(self, st, t, loc):
         b = self.b
         dest = t["dest"]
-        dcell = cell_of_place(dest)
+        dcell = self._cop(dest)
         callee = callee_of(t) or ""
         args_iv = [self.operand_iv(st, a) for a in t["args"]]
         # Range::next: payload in [start.lo, end.hi - 1]
@@ -417,13 +430,13 @@ class Intervals:
             return
         self._kill(st, dcell[0], dcell[1])
         if callee.endswith("IntoIterator>::into_iter") and t["args"] and t["args"][0]["k"] in ("copy", "move"):
-            src = cell_of_place(t["args"][0]["place"])
+            src = self._cop(t["args"][0]["place"])
             if src is not None and src[0] not in self.escaped:
                 self._copy_into(st, src, dcell)
             return
         if callee.endswith("::unwrap") or callee.endswith("::expect"):
             if t["args"][0]["k"] in ("copy", "move"):
-                src = cell_of_place(t["args"][0]["place"])
+                src = self._cop(t["args"][0]["place"])
                 if src is not None and src[0] not in self.escaped:
                     for tag in ("@Some", "@Ok"):
                         self._copy_into(st, (src[0], src[1] + (tag, 0)), dcell)
@@ -432,7 +445,7 @@ class Intervals:
             return
         if callee.endswith(" as std::ops::Try>::branch") and t["args"] and t["args"][0]["k"] in ("copy", "move"):
             # `x?` on Result/Option: Ok(v) | Some(v) => ControlFlow::Continue(v); Err(e) => Break(Err(e))
-            src = cell_of_place(t["args"][0]["place"])
+            src = self._cop(t["args"][0]["place"])
             if src is not None and src[0] not in self.escaped:
                 for tag in ("@Ok", "@Some"):
                     self._copy_into(st, (src[0], src[1] + (tag, 0)), (dcell[0], dcell[1] + ("@Continue", 0)))
@@ -459,7 +472,7 @@ class Intervals:
             if self.facts.has_body(cand):
                 target = cand
         if callee.endswith("Result::<T, E>::ok") and t["args"][0]["k"] in ("copy", "move"):
-            src = cell_of_place(t["args"][0]["place"])
+            src = self._cop(t["args"][0]["place"])
             if src is not None and src[0] not in self.escaped:
                 self._copy_into(st, (src[0], src[1] + ("@Ok",)), (dcell[0], dcell[1] + ("@Some",)))
                 if self.variant_sets:
@@ -504,7 +517,7 @@ class Intervals:
         if o["k"] == "const":
             iv = self.operand_iv(st, o)
             return {(): iv} if iv != TOP else {}
-        c = cell_of_place(o["place"])
+        c = self._cop(o["place"])
         if c is None or c[0] in self.escaped:
             return {}
         out = {}
@@ -528,7 +541,7 @@ class Intervals:
         for i, a in enumerate(args or []):
             for path, v in a.items():
                 ai[(i + 1, path)] = v
-        sub = Intervals(cb, self.summaries, self.depth + 1, ai, self.sub_analyses, variant_sets=self.variant_sets)
+        sub = Intervals(cb, self.summaries, self.depth + 1, ai, self.sub_analyses, variant_sets=self.variant_sets, through_refs=self.through_refs)
         self.sub_analyses[key] = sub
         r = None
         for rb in cb.return_blocks():
